@@ -111,6 +111,17 @@ Theorem C18_proplayer_atomic_continue : forall st o st' k ops,
 Proof. exact atomic_continue. Qed.
 Print Assumptions C18_proplayer_atomic_continue.
 
+(* ... and in every state reached by a history that does not itself write the "empty" layer, for
+   either implementation and ANY capacity >= 0, EVERY rejection leaves the state identical - also
+   "Cell is full" (place, cell setter / move_to, move_relative into a full cell), whose
+   `self.empty = False` before the raise is a no-op because a full cell is not empty. *)
+Theorem C18_proplayer_full_cell : forall d multi cap dims ops o st' k,
+  (d = true -> 0 <= cap /\ clean ops = true) ->
+  let st := run_state (init d multi cap dims) ops in
+  step st o = (st', RErr k) -> st' = st.
+Proof. exact atomic_clean. Qed.
+Print Assumptions C18_proplayer_full_cell.
+
 (* ---------------- non-vacuity ---------------- *)
 Definition ex_ops : list op :=
   [Create 1 1 1; Create 2 2 16; SetArray (ByName 1) [0; 2; 2; 1]; Place 7 [0; 1];
@@ -210,3 +221,9 @@ Example C11_select_exact_actual_example :
   exists m, select_mask st [(1, (CGe, 3))] [(1, 1)] [] true = inl m /\ mask_list m = [[0; 1]; [1; 0]] /\
             occupied (s_agents st) [0; 0] = true.
 Proof. eexists. vm_compute. repeat split. Qed.
+
+Example C18_proplayer_full_cell_example :
+  let st := run_state (init true false 1 [2; 2]) [Create 1 1 0; Place 1 [0; 0]; Place 2 [0; 1]] in
+  map (fun o => step st o) [Place 3 [0; 0]; Move 2 [0; 0]; MoveRel 2 [0; -1] false; MoveRel 2 [0; 1] false]
+    = [(st, RErr E_EXC); (st, RErr E_EXC); (st, RErr E_EXC); (st, RErr E_VALUE)].
+Proof. vm_compute. reflexivity. Qed.
